@@ -34,6 +34,9 @@ import (
 	"github.com/weaveworks/mesh"
 )
 
+// The minimum size of the identifier of a forwarded message (fixed part and a contract)
+const minMessageID = 20
+
 // Swarm represents a gossiper.
 type Swarm struct {
 	sync.Mutex
@@ -338,6 +341,10 @@ func (s *Swarm) OnGossipUnicast(src mesh.PeerName, buf []byte) (err error) {
 
 	// Go through each message in the decoded frame
 	for i := range frame {
+		if len(frame[i].ID) < minMessageID {
+			continue // Ignore the messages without a valid identifier
+		}
+
 		s.OnMessage(&frame[i])
 	}
 
